@@ -248,7 +248,7 @@ def ensure(configs, nproc=None, timeout=420, log=None):
             k = 1.0
             if not o.get("orthogonal", True):
                 k *= 2.5
-            if c.get("geom", "") in ("cdn", "udn", "ldn", "udn2", "ldn2"):
+            if c.get("geom", "") in ("cdn", "udn", "ldn", "udn2", "ldn2", "udn1", "ldn1"):
                 k *= 2
             if o.get("psi_interpolation_method") == "dct":
                 k *= 4
